@@ -5,6 +5,7 @@
 mod alloc;
 mod exec;
 mod gen;
+mod memsize;
 mod monitors;
 mod ops;
 mod types;
@@ -733,6 +734,32 @@ fn main() {
     let depth: usize = get("--depth").and_then(|s| s.parse().ok()).unwrap_or(2);
     let careful = args.iter().any(|a| a == "--careful");
     let mut rng = Rng::new(seed.wrapping_mul(1000003).wrapping_add(shard.0));
+    if family == "stack" {
+        let n: usize = get("--n").and_then(|s| s.parse().ok()).unwrap_or(5_000_000);
+        match memsize::stack_probe(n) {
+            Ok(()) => println!("stack ok"),
+            Err(e) => {
+                println!("stack probe failed: {}", e);
+                std::process::exit(1);
+            }
+        }
+        return;
+    }
+    if family == "memsize" {
+        let f = |ext: &str| BufWriter::new(File::create(format!("{}.{}", out, ext)).expect("create output"));
+        let mut m = memsize::MemOut { ops: f("ops"), obs: f("obs"), mon: f("mon"), values: 0, helper_lines: 0, failures: 0,
+            types: BTreeMap::new(), spare: 0, samples: Vec::new() };
+        memsize::run_all(&mut m, &mut rng, seqs);
+        m.ops.flush().unwrap();
+        m.obs.flush().unwrap();
+        m.mon.flush().unwrap();
+        let mut st = f("stats");
+        let types: Vec<String> = m.types.iter().map(|(k, v)| format!("\"{}\": {}", k.replace('"', "'"), v)).collect();
+        let samples: Vec<String> = m.samples.iter().map(|s| format!("\"{}\"", s.replace('"', "'"))).collect();
+        writeln!(st, "{{\"values\": {}, \"helper_lines\": {}, \"monitor_failures\": {}, \"with_buffers\": {}, \"types\": {{{}}}, \"samples\": [{}]}}",
+            m.values, m.helper_lines, m.failures, m.spare, types.join(", "), samples.join(", ")).unwrap();
+        return;
+    }
     let mut sink = Sink::new(&out, careful);
     match family.as_str() {
         "replay" => replay(&mut sink, &get("--ops").expect("--ops file")),
